@@ -65,6 +65,13 @@ class Contract:
         for n, f in d.items():
             if n.startswith('raises_') and callable(f):
                 self.raises.append((resolve_exception(n[len('raises_'):]), n, f))
+        # maybe_<Exc>(params): the exception may occur, but only when the condition (over the pre-state) holds — a
+        # necessary condition, proved for the function as `<name>.only-when`; at a call site the exceptional exit
+        # exists only where the condition can hold (weaker than raises_<Exc>, which says "if and only if")
+        self.maybe = []
+        for n, f in d.items():
+            if n.startswith('maybe_') and callable(f):
+                self.maybe.append((resolve_exception(n[len('maybe_'):]), n, f))
         self.modifies = d.get('modifies')
         self.returns = d.get('returns')
         # `returns` names the result at call sites.  Unless the contract says that this naming is the
@@ -399,6 +406,10 @@ def apply_contract(ip: Interp, con: Contract, fn, args, kwargs, bound_cls) -> SV
         c = eval_clause(ip, f, locs)
         if ip.decide(c):
             raise PyRaise(exc, (), con.target)
+    for exc, name, f in con.maybe:
+        c = eval_clause(ip, f, locs)
+        if ip.decide(z3.And(st.fresh('may_raise', B), c)):
+            raise PyRaise(exc, (), con.target + f' (possible by its contract: {name})')
     # exceptions the contract merely allows may occur at any time, as far as the caller knows
     for exc in con.allowed:
         if ip.decide(st.fresh('may_raise', B)):
@@ -931,6 +942,10 @@ def verify_function(target: str, only: Optional[str] = None, timeout_ms: Optiona
                     if con.frame_on_raise:
                         for aname, g in frame_goal(sub, pre_heap, post_heap, [], pre_nalloc):
                             obligations.append(Obligation(f'{declared[0][1]}.heap-unchanged.{aname}', list(sub.st.pc), g, pi))
+                elif any(issubclass(e.exc_cls, exc) for exc, _, _ in con.maybe):
+                    mb = [(name, f) for exc, name, f in con.maybe if issubclass(e.exc_cls, exc)]
+                    conds = [in_pre(lambda f=f: eval_clause(sub, f, params)) for _, f in mb]
+                    obligations.append(Obligation(f'{mb[0][0]}.only-when', list(sub.st.pc), z3.Or(*conds), pi))
                 elif con.allowed and issubclass(e.exc_cls, con.allowed):
                     pass
                 else:
@@ -1421,6 +1436,9 @@ def discharge(res: FnResult, obligations: List[Obligation], timeout_ms: int, onl
                 detail = f'path {ob.path}: solver answered unknown ({s.reason_unknown()})' + (f' ({ob.note})' if ob.note else '')
                 if os.environ.get('PYVC_DEBUG'):
                     print(f'--- open subgoal of {name} (path {ob.path}):\n{str(ob.goal)[:3000]}', file=sys.stderr)
+                    if os.environ.get('PYVC_DEBUG') == '2':
+                        for c in ob.pc:
+                            print('    PC:', str(c)[:1500].replace('\n', ' '), file=sys.stderr)
                 if not small_scope:
                     break    # one open instance settles the group's verdict; do not burn time on the rest
         res.clauses[name] = {'verdict': verdict, 'instances': len(obs), 'detail': detail, 'cex': cex}
